@@ -99,7 +99,9 @@ def r3(ctx):
     for fq, want in (("pe.find_compile_stamps", "(None, None)"), ("pe.find_magic_mz", "None"), ("pe.find_magic_pe", "None"), ("pe.find_stage_prepend_append", "(None, None)")):
         f = ctx.repo.func(fq)
         cfg = ctx.cfg(f)
-        spec = specialise(cfg, {"mz_offset is None": True, "mz_offset": False})
+        mz = [dotted(s2.targets[0]) for s2 in statements(f.node) if isinstance(s2, ast.Assign) and isinstance(s2.value, ast.Call) and ctx.rs.resolve_call(f, s2.value).fq == "pe.find_mz_offset"]
+        mzv = mz[0] if mz else "mz_offset"
+        spec = specialise(cfg, {f"{mzv} is None": True, mzv: False})
         rets = [r for r in cfg.return_stmts() if spec.reaches(ENTRY, cfg.node(r))]
         ok = bool(rets) and all(src(r.value) == want for r in rets)
         ctx.ob("R3", "EXIT", f, "mz_offset is None", ok, f"with no MZ header found returns {[src(r.value) for r in rets]} (documented {want})")
